@@ -318,7 +318,28 @@ class StoreWorld(object):
             kw['allow_custom'] = self.cfg.get('fs_allow_custom', True)
         if self.cfg.get('bundlify'):
             kw['bundlify'] = True
-        self.F = self.stix2.FileSystemStore(self.fsdir, **kw)
+        if self.cfg.get('rel_path'):
+            # the application names its store directory RELATIVE to the working directory it has at that moment
+            os.chdir(self.disk.root)
+            self.F = self.stix2.FileSystemStore(os.path.relpath(self.fsdir, self.disk.root), **kw)
+            self.world.probe('store_directory_given_as_relative_path')
+        else:
+            self.F = self.stix2.FileSystemStore(self.fsdir, **kw)
+
+    def chdir(self, n):
+        """Something unrelated in the process changes the working directory - to a directory that has an entry of the same
+        name as the store directory (holding other content) or to one that has none.  A store keeps reading and writing the
+        directory it was created on."""
+        decoy = os.path.join(self.disk.root, 'elsewhere%d' % (n % 2))
+        if not os.path.isdir(decoy):
+            os.mkdir(decoy)
+            if n % 2 == 0:
+                other = {'type': 'identity', 'spec_version': '2.1', 'id': C.mkid('identity', 424242, 'decoy'), 'name': 'decoy',
+                         'created': '2019-01-01T00:00:00.000Z', 'modified': '2019-01-01T00:00:00.000Z'}
+                self.disk.raw_write('elsewhere0/fs/identity/%s/20190101000000000.json' % other['id'], json.dumps(other).encode('utf-8'))
+        os.chdir(decoy if n % 3 else self.disk.root)
+        self.world.probe('working_directory_changed')
+        self.world.log(op='chdir', to=os.path.relpath(os.getcwd(), self.disk.root))
 
     def store(self, name):
         return self.M if name == 'M' else self.F
